@@ -241,7 +241,7 @@ func (w *walker) transaction(i int, decide int, byKey bool) {
 		prospective[i] = !prospective[i]
 		would := w.ref.at(prospective).totals[cm.limVar]
 		byChange := pre.totals[cm.limVar] + ch[cm.limVar]
-		exceeds := would > cm.limit+1e-9
+		exceeds := would > cm.limit // exact: both are floats nearest to decimals (or the limit is >= 0.01 grid unit off the grid)
 		if valid == exceeds {
 			kind := "rejected-although-within-limit"
 			if valid {
@@ -294,7 +294,7 @@ func (w *walker) transaction(i int, decide int, byKey bool) {
 			}
 		}
 		// C03: the single-objective policy (accept only what the verdict allows) keeps a within-limit state within the limit
-		if cm.limVar >= 0 && decide == 2 && pre.totals[cm.limVar] <= cm.limit+1e-9 && post.totals[cm.limVar] > cm.limit+1e-9 {
+		if cm.limVar >= 0 && decide == 2 && pre.totals[cm.limVar] <= cm.limit && post.totals[cm.limVar] > cm.limit {
 			w.fail("C03:held-state-respects-limit", "catchment:valid-verdict-led-over-the-limit",
 				fmt.Sprintf("propose %d in set %s was judged valid and accepted: %s went %v -> %v, limit %v", i, pre.enc, varNames[cm.limVar], pre.totals[cm.limVar], post.totals[cm.limVar], cm.limit))
 		}
@@ -416,7 +416,7 @@ func (w *walker) randomize(r *Rng) {
 	default:
 		gen = func() int { return r.Intn(2) }
 	}
-	preValid := cm.limVar < 0 || cm.total(cm.limVar) <= cm.limit+1e-9
+	preValid := cm.limVar < 0 || cm.total(cm.limVar) <= cm.limit
 	outcome, draws := cm.randomize(gen)
 	ds := make([]string, len(draws))
 	for i, d := range draws {
@@ -441,7 +441,7 @@ func (w *walker) randomize(r *Rng) {
 	}
 	w.checkState("randomize", s)
 	// C03 (initial randomisation respects the limit) is evaluated by the limited-runs suite; here only the state.
-	if cm.limVar >= 0 && preValid && outcome == "found" && s.totals[cm.limVar] > cm.limit+1e-9 {
+	if cm.limVar >= 0 && preValid && outcome == "found" && s.totals[cm.limVar] > cm.limit {
 		w.fail("C03:randomisation-respects-limit", "catchment:randomize-exceeds-limit", fmt.Sprintf("%s = %v > %v after Randomize()", varNames[cm.limVar], s.totals[cm.limVar], cm.limit))
 	}
 }
@@ -549,19 +549,76 @@ func sortFloats(xs []float64) {
 	}
 }
 
-// limitsFor places limits strictly between attainable values (and one above the maximum).
+// limitsFor places k limits for variable v, cycling through the kinds a verdict can get wrong:
+//   mid    strictly between two attainable values (a few grid steps from either)
+//   exact  EXACTLY an attainable value (incl. the starting extremes): "would be exactly the limit" is within the limit
+//   below  an attainable value minus 0.3 / 0.45 / 0.01 of the variable's grid unit (off the grid, just exceeded)
+//   above  an attainable value plus the same (off the grid, just kept)
+//   zero   0 (a legal configuration: Maximum* keys are validated as non-negative decimals)
+// Off-grid limits keep at least 0.01 grid unit away from every grid point; the model identifies a limit within
+// 2^-50 (relative) of a grid point with that grid point (the float nearest to a decimal IS that decimal).
 func limitsFor(ref *Ref, r *Rng, v int, k int) []float64 {
 	at := attainable(ref, r, v, 60)
+	u := math.Pow(10, -float64(varPrec[v]))
 	var lims []float64
-	if len(at) < 2 {
-		return []float64{at[0] + 1}
-	}
+	kinds := []string{"mid", "exact", "below", "above", "exact", "mid", "below", "zero"}
+	start := r.Intn(len(kinds))
 	for j := 0; j < k; j++ {
-		i := r.Intn(len(at) - 1)
-		mid := (at[i] + at[i+1]) / 2
-		lims = append(lims, math.Round(mid*1e4)/1e4+0.00003)
+		a := at[r.Intn(len(at))]
+		off := []float64{0.3, 0.45, 0.01}[r.Intn(3)] * u
+		switch kind := kinds[(start+j)%len(kinds)]; {
+		case kind == "exact":
+			if r.Chance(0.3) { // the two starting extremes: nothing active / everything active
+				a = []float64{ref.at(make([]bool, ref.cm.n())).totals[v], at[len(at)-1], at[0]}[r.Intn(3)]
+			}
+			lims = append(lims, a)
+		case kind == "below":
+			lims = append(lims, a-off)
+		case kind == "above":
+			lims = append(lims, a+off)
+		case kind == "zero":
+			lims = append(lims, 0)
+		default:
+			if len(at) < 2 {
+				lims = append(lims, at[0]+1)
+				continue
+			}
+			i := r.Intn(len(at) - 1)
+			mid := (at[i] + at[i+1]) / 2
+			lims = append(lims, math.Round(mid*1e4)/1e4+0.00003)
+		}
+	}
+	for i, l := range lims {
+		if l < 0 {
+			lims[i] = 0 // Maximum* keys must be non-negative
+		}
 	}
 	return lims
+}
+
+// startLimitsFor: limits that satisfy C03's premise — attainable at the optimiser's starting extreme (everything active
+// under a pollutant limit, nothing active under a cost limit).  Exact ties with the starting extreme are kept.
+func startLimitsFor(ref *Ref, r *Rng, v int, k int) []float64 {
+	n := ref.cm.n()
+	start := make([]bool, n)
+	if v < 4 {
+		for i := range start {
+			start[i] = true
+		}
+	}
+	atStart := ref.at(start).totals[v]
+	var out []float64
+	for tries := 0; len(out) < k && tries < 20*k+20; tries++ {
+		for _, l := range limitsFor(ref, r, v, k) {
+			if l >= atStart && len(out) < k {
+				out = append(out, l)
+			}
+		}
+	}
+	if len(out) == 0 {
+		out = append(out, atStart)
+	}
+	return out
 }
 
 func suiteCatchmentWalk(c *Ctx) {
@@ -577,6 +634,8 @@ func suiteCatchmentWalk(c *Ctx) {
 		tag    string
 		steps  int
 		gray   []bool
+		probe  []bool // boundary probe: load this set, then propose `probeAt` (the limit is the value that step leads to)
+		probeAt int
 	}
 	var jobs []job
 	walkSteps := c.N(400, 4000)
@@ -590,8 +649,42 @@ func suiteCatchmentWalk(c *Ctx) {
 			jobs = append(jobs, job{ds: ds, limVar: -1, tag: "shipped", steps: walkSteps})
 		}
 		for v := 0; v < 6; v++ {
-			for _, lim := range limitsFor(ref, r, v, c.N(2, 8)) {
+			for _, lim := range limitsFor(ref, r, v, c.N(3, 10)) {
 				jobs = append(jobs, job{ds: ds, limVar: v, limit: lim, tag: "shipped-limited", steps: walkSteps})
+			}
+		}
+	}
+	// boundary probes: the limit is EXACTLY the value a chosen step out of a chosen set leads to (or that value
+	// minus / plus a fraction of a grid unit); the step is proposed from both sides.  "Would be exactly the limit"
+	// is within the limit; a third of a grid unit above it is not.
+	for _, ds := range shippedDatasets() {
+		ref, err := newRef(ds, -1, 0)
+		if err != nil || ref.cm.n() == 0 {
+			continue
+		}
+		n := ref.cm.n()
+		for v := 0; v < 6; v++ {
+			for k := 0; k < c.N(4, 24); k++ {
+				bits := make([]bool, n)
+				p := []float64{0, 1, 0.15, 0.85, 0.5}[r.Intn(5)]
+				for i := range bits {
+					bits[i] = r.Chance(p)
+				}
+				at := r.Intn(n)
+				next := append([]bool(nil), bits...)
+				next[at] = !next[at]
+				lim := ref.at(next).totals[v]
+				u := math.Pow(10, -float64(varPrec[v]))
+				switch k % 4 {
+				case 1:
+					lim -= []float64{0.3, 0.45, 0.01}[r.Intn(3)] * u
+				case 2:
+					lim += []float64{0.3, 0.45, 0.01}[r.Intn(3)] * u
+				}
+				if lim < 0 {
+					lim = 0
+				}
+				jobs = append(jobs, job{ds: ds, limVar: v, limit: lim, tag: "boundary-probe", steps: 12, probe: bits, probeAt: at})
 			}
 		}
 	}
@@ -631,7 +724,17 @@ func suiteCatchmentWalk(c *Ctx) {
 		if w == nil {
 			continue
 		}
-		if j.gray != nil {
+		if j.probe != nil {
+			w.setAll(j.probe, 0)
+			w.transaction(j.probeAt, 2, false) // towards the limit's value
+			w.setAll(j.probe, 1)
+			w.transaction(j.probeAt, 1, false) // forced there ...
+			w.transaction(j.probeAt, 2, false) // ... and away from it
+			pr := r.Fork()
+			for k := 0; k < j.steps; k++ {
+				w.transaction(pr.Intn(w.cm.n()), 2, pr.Chance(0.3))
+			}
+		} else if j.gray != nil {
 			w.grayWalk(j.gray)
 		} else {
 			w.randomWalk(r.Fork(), j.steps)
